@@ -62,7 +62,7 @@ def bi_read(df, asof = None, what = -1):
     index_name = df.index.name
     if len(df):        
         if index_name is None:
-            df.index.name = 'index'
+            df = df.rename_axis('index') ## a renamed copy: the caller's store keeps its index as it is
         gb = df.sort_values(_updated).groupby(df.index.name)
         res = gb.apply(_as_what(what)) ## since first and last return NON NAN VALUES, we need to override them
     else:
